@@ -150,11 +150,15 @@ impl Memfs {
 
     // Create a MemfsGuard::Read
     pub(crate) fn read_guard(&self) -> MemfsGuard {
+        #[cfg(rivia_verif)]
+        sys::verif::guard_point();
         MemfsGuard::Read(self.0.read().unwrap())
     }
 
     // Create a MemfsGuard::write
     pub(crate) fn write_guard(&self) -> MemfsGuard {
+        #[cfg(rivia_verif)]
+        sys::verif::guard_point();
         MemfsGuard::Write(self.0.write().unwrap())
     }
 
